@@ -86,7 +86,10 @@ def derive(specname, hname, cname, pass_kind):
                 pwv = bytes(rng.randrange(256) for _ in range(L))
                 arg = pwv
             else:
-                arg = ''.join(rng.choice(['a', 'Z', ' ', 'é', '中', '\U0001F600']) for _ in range(min(L, 300)))
+                # code points incl. ones that are not in any Unicode normal form (combining accent after a base letter, ANGSTROM SIGN,
+                # conjoining jamo, a compatibility ligature): the octets hashed are the UTF-8 encoding of the string as given
+                arg = ''.join(rng.choice(['a', 'Z', ' ', 'é', '中', '\U0001F600', 'e\u0301', '\u212b', '\u1100\u1161', '\ufb01', '\u00a0'])
+                              for _ in range(min(L, 300)))
                 pwv = arg.encode('utf-8')
             cases += 1
             try:
